@@ -44,6 +44,11 @@ package taskctl
 //@ func checkStageCondition
 //@   trusted runs an external command (os/exec); no access to scheduler state
 //@   modifies nothing
+//@ func (*Scheduler).runStage
+//@   trusted runs the task through the injected runner.Runner (or a nested pipeline); it only writes the task's Env/Variables
+//@   modifies task.Task.Env, task.Task.Variables
+//@ func (*Scheduler).Schedule$1$1
+//@   modifies scheduler.Stage.End, $wgTokens, $clock
 //@ func (*Scheduler).Schedule$1
 //@   requires [nonnil] s != nil
 
